@@ -35,6 +35,8 @@ CLAIMED = {
             "the model is two-phase by construction, like _file_helper; that the real function does not write before it has read everything is what the byte comparison checks"),
     "C14": ("6 C14", "PARTIAL. Proved: C14_epm / C14_epm_all / C14_epm_fields (Record(**_record_to_dict(r)) = r with sorted synonym lists; pattern '' kept), C14_jsonld (reading the written context, plain or expanded, with or without synonyms, through the loader's term filter gives exactly the written pairs), C14_turtle_string / C14_shacl (backslash escaping is undone by the Turtle short-string lexer for prefix, namespace and pattern over the quantified alphabet), C14_tsv (no quoting, line splits back). Not modelled: json, pathlib, rdflib's Turtle parser and SPARQL engine, csv -- exercised by writing real files with the library's writers and reading them back with its loaders.",
             "turtle_unescape is a model of rdflib's short-string lexer validated only through the real SHACL round trips"),
+    "C13": ("6 C13", "C13_prefix_map / C13_prefix_map_behaves, C13_priority (first URI prefix canonical, rest synonyms), C13_reverse (all group members registered, a shortest canonical, nothing invented; via a proved defaultdict-grouping lemma), C13_epm, C13_jsonld / C13_jsonld_terms (exactly the string terms and @prefix dictionaries under non-empty non-@ keys), C13_upgrade_canonical / C13_upgrade_strict (ALWAYS accepted by the strict constructor) / C13_upgrade_order (independent of dictionary order) / C13_upgrade_members (lexicographic minimum canonical, nothing dropped); for all inputs over arbitrary strings. Every loader is the strict constructor applied to these records, so the query theorems apply to the loaded converter.",
+            "loading from a str path / Path versus the object is a runtime clause (json, pathlib) checked by the run only; from_rdflib is the prefix-map loader applied to namespaces()"),
 }
 NOT_YET = {}
 
